@@ -7,7 +7,9 @@ CFG = {
                   "payload is queued for the reader iff it is not STUN-like and its source is the address of a CURRENT remote candidate "
                   "of the receiving candidate's network type (cache invariant proved along all histories incl. prflx supersession, "
                   "Restart, Failed, Close), otherwise the whole state is unchanged; the STUN path and every other event leave the reader "
-                  "queue alone; reads are FIFO; (counters) per-event change of connBytesSent/connBytesRecv and of every pair's "
+                  "queue alone; reads are FIFO and consume one whole datagram whatever the size of the caller's buffer (buffer >= "
+                  "datagram: read:n, +n bytes; shorter: short:cap = io.ErrShortBuffer, +cap bytes; for EVERY agent state and buffer "
+                  "size the received-bytes counter moves by exactly the byte count the call reports); (counters) per-event change of connBytesSent/connBytesRecv and of every pair's "
                   "pktSent/bytesSent/pktRecv/bytesRecv, folded over histories and over any segment during which one pair stays selected; "
                   "(two agents) each deliver/dup of a hub datagram hands the payload to the owner's reader exactly once iff the owner "
                   "knows a remote candidate at the NAT-mapped source on that transport, drop/blocked/unowned change no agent. "
@@ -15,7 +17,8 @@ CFG = {
     "level_note": "Payloads are modelled by their length plus a stunLike flag (stun.IsMessage: length >= 20 and magic cookie at bytes "
                   "4..8); the model never touches payload contents, so 'arrives unmodified' holds BY CONSTRUCTION of the model and is "
                   "covered for the code only by the correspondence run (the harness compares lengths, not bytes). packetio.Buffer is "
-                  "modelled as an UNBOUNDED FIFO of lengths: its size limit, its short-read behaviour and its contents are trusted. "
+                  "modelled as an UNBOUNDED FIFO of lengths: its size limit and its contents are trusted; its short-read behaviour "
+                  "(min(len, cap) bytes + io.ErrShortBuffer, datagram consumed, cap 0 included) is modelled and compared. "
                   "Conn.WriteToPair does not add to Conn.BytesSent in the code nor in the model (the property text speaks of Write only). "
                   "Trusted: Lean kernel (axioms propext/Classical.choice/Quot.sound), the model-to-code tie = differential correspondence "
                   "of component `agent` (real Agent under testing/synctest vs IceModel.Sys2 on generated schedules; it sends payloads of "
@@ -24,7 +27,8 @@ CFG = {
     "components": [{"component": "agent", "args": "focus=C07", "session_start": "new", "trivial_regex": "^(bad-op.*|ended.*)$", "shrink_s": 40}],
     "rule": "quick: the agent generator's default budget of two-agent sessions (ticks, deliveries, drops, duplicates, data writes "
             "0..8000 bytes with/without STUN-like prefix, injected data from known/unknown/other-transport sources, reads, restart, "
-            "close); thorough: larger budget. Distinct = distinct (operation, output) lines; non-trivial = not bad-op / ended.",
+            "close; reads mostly into a receiveMTU buffer, a minority into buffers of exactly / one less than / half a recent "
+            "datagram's size, 1, 0 and 65536 bytes; corpus/C07/agent.ops is replayed first); thorough: larger budget. Distinct = distinct (operation, output) lines; non-trivial = not bad-op / ended.",
     "translated": [],
     "trusted_base": ["packetio.Buffer (bounded FIFO of byte slices) is modelled as an unbounded FIFO of lengths",
                      "payload bytes are not modelled: byte identity of delivered payloads is by construction of the model",
